@@ -79,6 +79,11 @@ type Fin struct {
 	Rule   string   `json:"rule,omitempty"` // nothing | updates | all
 	Cols   []string `json:"cols,omitempty"`
 	Target bool     `json:"target"` // OnConflict.Columns = [id] given explicitly
+	// conditional rules: OnConflict.Where = (stored age < OCWhere) on DoUpdates/UpdateAll;
+	// OnConflict.TargetWhere = (age < OCTarget) in the conflict-target position (no effect on a
+	// non-partial key index)
+	OCWhere  *int64 `json:"oc_where,omitempty"`
+	OCTarget *int64 `json:"oc_target,omitempty"`
 	Inline []Cond   `json:"inline,omitempty"`
 }
 type Input struct {
@@ -305,6 +310,15 @@ func run(e *env, in Input) Obs {
 		case "all":
 			oc.UpdateAll = true
 		}
+		ageLt := func(k int64) clause.Where {
+			return clause.Where{Exprs: []clause.Expression{clause.Lt{Column: clause.Column{Table: clause.CurrentTable, Name: "age"}, Value: k}}}
+		}
+		if in.Fin.OCWhere != nil {
+			oc.Where = ageLt(*in.Fin.OCWhere)
+		}
+		if in.Fin.OCTarget != nil {
+			oc.TargetWhere = ageLt(*in.Fin.OCTarget)
+		}
 		res = tx.Clauses(oc).Create(&dest)
 	case "foi":
 		res = tx.FirstOrInit(&dest, inline...)
@@ -410,6 +424,12 @@ func gFin(f Fin) string {
 			rule = lib.App("RUpdates", lib.ListOf(f.Cols, func(c string) string { return gColName[c] }))
 		case "all":
 			rule = "RAll"
+		}
+		if f.OCTarget != nil {
+			rule = lib.App("RTarget", lib.Z(*f.OCTarget), rule)
+		}
+		if f.OCWhere != nil {
+			rule = lib.App("RWhere", lib.Z(*f.OCWhere), rule)
 		}
 		return lib.App("FCreateOC", rule, gRec(*f.Val))
 	case "foi":
@@ -667,6 +687,15 @@ func genStep(r *lib.Rng, state []Rec, now int64, edge, known bool) Input {
 			f.Rule = "all"
 			f.Target = r.Bool()
 		}
+		// conditional rules (ages are 0..3, so both sides of the condition occur)
+		if f.Rule != "nothing" && r.Chance(2, 5) {
+			k := int64(1 + r.Intn(3))
+			f.OCWhere = &k
+		}
+		if r.Chance(1, 5) {
+			k := int64(1 + r.Intn(3))
+			f.OCTarget, f.Target = &k, true
+		}
 		in.Fin = f
 	default:
 		f := Fin{Kind: "foi"}
@@ -737,6 +766,12 @@ func shape(in Input, o Obs) string {
 	sb.WriteString(in.Fin.Kind)
 	if in.Fin.Kind == "create_oc" {
 		sb.WriteString(":" + in.Fin.Rule)
+		if in.Fin.OCWhere != nil {
+			fmt.Fprintf(&sb, "+where%d", *in.Fin.OCWhere)
+		}
+		if in.Fin.OCTarget != nil {
+			fmt.Fprintf(&sb, "+target%d", *in.Fin.OCTarget)
+		}
 		cs := append([]string(nil), in.Fin.Cols...)
 		sort.Strings(cs)
 		sb.WriteString("[" + strings.Join(cs, ",") + "]")
@@ -809,6 +844,15 @@ func main() {
 		fk := in.Fin.Kind
 		if fk == "create_oc" {
 			fk += ":" + in.Fin.Rule
+			if in.Fin.OCWhere != nil {
+				fk += "+where"
+				if row := findRow(in.Tbl, in.Fin.Val.ID); row != nil && in.Fin.Val.ID != 0 {
+					out.Count("conditional_rule_on_collision", fmt.Sprintf("stored row satisfies the condition: %v", row.Age < *in.Fin.OCWhere))
+				}
+			}
+			if in.Fin.OCTarget != nil {
+				fk += "+target"
+			}
 		}
 		out.Count("finisher", fk)
 		out.Count("table_size", fmt.Sprint(len(in.Tbl)))
@@ -917,6 +961,6 @@ func main() {
 			}
 		}
 	}
-	out.Extra["rule"] = "a case is ONE step on a table of 0..n rows over keys 1..4 (+ rowid-assigned keys): Save(v) | Create+OnConflict{DoNothing, DoUpdates(subset of name,age,email,updated_at,deleted_at), UpdateAll}(v) | FirstOrInit | FirstOrCreate, preceded by a chain of Where(struct|map|raw 'age > ?') / Attrs / Assign (struct, map in column or field spelling, key-value; 1-2 arguments) in any order with Session(&Session{}) / WithContext inserted at chain positions; steps are chained into histories of 6..12 steps on the evolving table with soft/hard deletions in between; v is fresh (key 0 or 1..4) or a previously stored row edited. Session/WithContext are inserted at EVERY chain position, also after Attrs/Assign (stream session-after-attrs forces that shape, the fixed finding clone-drops-attrs). Domain: at most one Attrs and one Assign per chain, key-value form alone, two-argument forms in column spelling, Attrs/Assign keys among name/age/email, type-correct values, one inline condition. distinct = distinct (finisher, rule+cols, collision kind, chain form, inline form, RowsAffected, writes, error, table size); non-trivial = the value's key collides with a stored row (Save/upsert) or the chain has a condition and a non-empty Attrs/Assign on a non-empty table (FirstOr*)."
+	out.Extra["rule"] = "a case is ONE step on a table of 0..n rows over keys 1..4 (+ rowid-assigned keys): Save(v) | Create+OnConflict{DoNothing, DoUpdates(subset of name,age,email,updated_at,deleted_at), UpdateAll}(v), optionally conditional (OnConflict.Where = stored age < k on DoUpdates/UpdateAll, OnConflict.TargetWhere = age < k; colliding rows on both sides of the condition) | FirstOrInit | FirstOrCreate, preceded by a chain of Where(struct|map|raw 'age > ?') / Attrs / Assign (struct, map in column or field spelling, key-value; 1-2 arguments) in any order with Session(&Session{}) / WithContext inserted at chain positions; steps are chained into histories of 6..12 steps on the evolving table with soft/hard deletions in between; v is fresh (key 0 or 1..4) or a previously stored row edited. Session/WithContext are inserted at EVERY chain position, also after Attrs/Assign (stream session-after-attrs forces that shape, the fixed finding clone-drops-attrs). Domain: at most one Attrs and one Assign per chain, key-value form alone, two-argument forms in column spelling, Attrs/Assign keys among name/age/email, type-correct values, one inline condition. distinct = distinct (finisher, rule+cols, collision kind, chain form, inline form, RowsAffected, writes, error, table size); non-trivial = the value's key collides with a stored row (Save/upsert) or the chain has a condition and a non-empty Attrs/Assign on a non-empty table (FirstOr*)."
 	lib.Must(out.Flush())
 }
